@@ -19,6 +19,7 @@ func reportStress(prefix string, cfg stressCfg, res *stressResult, params map[st
 	out.Count(prefix+".published", res.Published)
 	out.Count(prefix+".received", res.Received)
 	out.Count(prefix+".order_keys", res.OrderKeys)
+	out.Count(prefix+".exactly_once_streams", res.Complete)
 	out.Count(prefix+".churned_connections", res.Churns)
 	out.Count(prefix+".retained_received", res.Retained)
 }
@@ -52,6 +53,33 @@ func TestC17(t *testing.T) {
 		if g < 2 {
 			out.Sample("c17", 2, map[string]interface{}{"params": params, "published": res.Published, "received_by_subscribers": res.Received, "order_keys_checked": res.OrderKeys})
 		}
+		out.End()
+	}
+}
+
+// TestC01Stress: the same concurrent workload, read for C01: every stable
+// subscriber must receive every acknowledged publish exactly once.
+func TestC01Stress(t *testing.T) {
+	n := pick(24, 400)
+	if raceEnabled {
+		n = pick(8, 80)
+	}
+	for g := 0; g < n; g++ {
+		id := fmt.Sprintf("c01/stress/%d", g)
+		if !mine(g) || !out.Only(id) {
+			continue
+		}
+		seed := caseSeed("c01x", g)
+		r := spec.NewRand(seed)
+		cfg := stressCfg{Seed: seed, Publishers: 2 + r.Intn(6), Subscribers: 2 + r.Intn(4), Msgs: pick(150, 300), Churn: g%2 == 1, InProc: g % 3, Fragment: g%2 == 0, GOMAXPROCS: []int{2, 4, 16}[g%3], BufferSize: 16384}
+		if raceEnabled {
+			cfg.Msgs = 60
+		}
+		params := map[string]interface{}{"publishers": cfg.Publishers, "subscribers": cfg.Subscribers, "msgs": cfg.Msgs, "churn": cfg.Churn, "inproc": cfg.InProc}
+		out.Begin(id, seed, params)
+		res := runStress(cfg)
+		reportStress("c01s", cfg, res, params)
+		out.Class(fmt.Sprintf("stress/p%d/s%d/churn%v/in%d", cfg.Publishers, cfg.Subscribers, cfg.Churn, cfg.InProc))
 		out.End()
 	}
 }
